@@ -118,9 +118,9 @@ impl Prop for C17 {
     /// deterministic part: one long-lived process that serves far more calls than any 16-bit counter holds
     fn sweep_case(&self, _i: usize, env: &Env) -> Option<PureCase> {
         let jobs = vec![
-            Job { src: "#let a   =  (1,2)\n".into(), cfg: Cfg { width: 80, tab: 2, reorder: false }, wrapper: false },
-            Job { src: "Some *text* and $x+y$.\n#f( a,b )\n".into(), cfg: Cfg { width: 20, tab: 4, reorder: true }, wrapper: false },
-            Job { src: "#import \"m.typ\": z, a\n".into(), cfg: Cfg { width: 40, tab: 2, reorder: false }, wrapper: true },
+            Job { src: "#let a   =  (1,2)\n".into(), cfg: Cfg { width: 80, tab: 2, reorder: false, blank: 2 }, wrapper: false },
+            Job { src: "Some *text* and $x+y$.\n#f( a,b )\n".into(), cfg: Cfg { width: 20, tab: 4, reorder: true, blank: 2 }, wrapper: false },
+            Job { src: "#import \"m.typ\": z, a\n".into(), cfg: Cfg { width: 40, tab: 2, reorder: false, blank: 2 }, wrapper: true },
         ];
         let marathon = match env.tier {
             Tier::Quick => 140_000,
@@ -175,6 +175,27 @@ impl Prop for C17 {
                 texts.push(v);
             }
         }
+        // one job set in three also holds deeply nested texts (depth 20..260, same wrapper or a mix): a depth
+        // guard, a recursion budget or a pooled stack that is not restored on some path only shows after
+        // such a text went through the same thread (seeded change C17-5)
+        if t.chance(85) {
+            for _ in 0..t.range(1, 2) {
+                let depth = match t.weighted(&[2, 3, 2]) {
+                    0 => t.range(20, 63),
+                    1 => t.range(64, 130),
+                    _ => t.range(131, 260),
+                };
+                let s = if t.coin() {
+                    gen::nest::same(t.pick(gen::nest::FAMILIES), depth)
+                } else {
+                    gen::nest::mixed(t, depth).0
+                };
+                if !syn::parse(&s).erroneous() {
+                    texts.insert(t.below(texts.len() + 1), s);
+                    st.label("deeply-nested-text-in-job-set");
+                }
+            }
+        }
         let mut jobs = vec![];
         for s in &texts {
             let k = 1 + t.weighted(&[4, 3, 1]);
@@ -182,9 +203,9 @@ impl Prop for C17 {
                 if jobs.len() >= 24 {
                     break;
                 }
-                let cfg = Cfg { width: config::width(t), tab: config::tab(t), reorder: t.chance(60) };
+                let cfg = Cfg { width: config::width(t), tab: config::tab(t), reorder: t.chance(60), blank: config::blank(t) };
                 let wrapper = t.chance(40);
-                let cfg = if wrapper { Cfg { tab: 2, reorder: false, ..cfg } } else { cfg };
+                let cfg = if wrapper { Cfg { tab: 2, reorder: false, blank: 2, ..cfg } } else { cfg };
                 jobs.push(Job { src: s.clone(), cfg, wrapper });
             }
         }
@@ -204,7 +225,7 @@ impl Prop for C17 {
             let mut w = t.range(20, 90);
             for _ in 0..t.range(3, 6) {
                 ladder.push(jobs.len());
-                jobs.push(Job { src: src.clone(), cfg: Cfg { width: w, tab: 2, reorder: false }, wrapper });
+                jobs.push(Job { src: src.clone(), cfg: Cfg { width: w, tab: 2, reorder: false, blank: 2 }, wrapper });
                 w = w.saturating_sub(t.range(1, 6));
             }
             st.label("ladder:descending-widths");
